@@ -136,6 +136,7 @@ theorem dunder_expr_ok (o : BOp) (ho : o ≠ .pow) (a : Expr) (y : Operand) (b :
     | unknown => simp [Operand.asExpr] at hy
     | bad => simp [Operand.asExpr] at hy
   | other => simp [Operand.asExpr] at hy
+  | bool _ => simp [Operand.asExpr] at hy
 
 theorem rdunder_expr_ok (o : BOp) (ho : o ≠ .pow) (a : Expr) (n : Int) :
     ∃ t, rdunder o (.expr a) (.int n) = .ok (.expr t) ∧
@@ -173,9 +174,11 @@ theorem binop_accepts (o : BOp) (ho : o ≠ .pow) (x y : Operand) (hx : x.accept
       (d = .unknown ↔ (x.isUnknown = true ∨ y.isUnknown = true)) := by
   cases x with
   | other => simp [Operand.accepted] at hx
+  | bool _ => simp [Operand.accepted] at hx
   | int n =>
     cases y with
     | other => simp [Operand.accepted] at hy
+    | bool _ => simp [Operand.accepted] at hy
     | int m => simp [Operand.isDim] at hd
     | dim d =>
       cases d with
@@ -196,6 +199,7 @@ theorem binop_accepts (o : BOp) (ho : o ≠ .pow) (x y : Operand) (hx : x.accept
     | expr a =>
       cases y with
       | other => simp [Operand.accepted] at hy
+      | bool _ => simp [Operand.accepted] at hy
       | int n =>
         obtain ⟨t, ht, _⟩ := dunder_expr_ok o ho a (.int n) (.num n) rfl
         refine ⟨.expr t, ?_, by simp, by simp [Operand.isUnknown]⟩
@@ -218,6 +222,68 @@ theorem binop_pow (x y : Operand) : binop .pow x y = .typeError := by
 theorem binop_other (o : BOp) (a : Expr) :
     binop o (.dim (.expr a)) .other = .typeError ∧ binop o .other (.dim (.expr a)) = .typeError := by
   cases o <;> exact ⟨rfl, rfl⟩
+
+/-! ## bool operands (`isinstance(True, int)`) -/
+
+/-- the `int` a bool is for `isinstance` -/
+def boolInt (b : Bool) : Int := if b then 1 else 0
+
+/-- a bool goes down the `int` branches: the unknown dimension absorbs it and a bad text raises on
+    either side, exactly as with an `int` -/
+theorem binop_bool_absorb (o : BOp) (ho : o ≠ .pow) (b : Bool) :
+    binop o (.dim .unknown) (.bool b) = .ok .unknown ∧
+    binop o (.bool b) (.dim .unknown) = .ok .unknown ∧
+    binop o (.dim .bad) (.bool b) = .valueError ∧
+    binop o (.bool b) (.dim .bad) = .valueError := by
+  cases o <;> first | exact absurd rfl ho | exact ⟨rfl, rfl, rfl, rfl⟩
+
+/-- SymPy refuses the bool: TypeError on either side of a known dimension, except `dim / bool` -/
+theorem binop_bool_refused (o : BOp) (b : Bool) (a : Expr) :
+    (o ≠ .truediv → binop o (.dim (.expr a)) (.bool b) = .typeError) ∧
+    binop o (.bool b) (.dim (.expr a)) = .typeError := by
+  cases o <;> refine ⟨fun h => ?_, rfl⟩ <;> first | exact absurd rfl h | rfl
+
+/-- `a / True` is `a / 1` and `a / False` is `a / 0` (`sympy.Rational(1, other)`) -/
+theorem binop_bool_truediv (b : Bool) (a : Expr) :
+    binop .truediv (.dim (.expr a)) (.bool b) = binop .truediv (.dim (.expr a)) (.int (boolInt b)) :=
+  rfl
+
+/-- wherever a bool operand is accepted at all, the result is the result with the `int` it is -/
+theorem binop_bool_as_int (o : BOp) (b : Bool) (x : Operand) (d : Dim) :
+    (binop o x (.bool b) = .ok d → binop o x (.int (boolInt b)) = .ok d) ∧
+    (binop o (.bool b) x = .ok d → binop o (.int (boolInt b)) x = .ok d) := by
+  constructor
+  · intro h
+    cases x with
+    | dim dx =>
+      cases dx with
+      | unknown => cases o <;> first | exact h | (simp [binop, dunder, Out.toPy] at h)
+      | bad => cases o <;> simp [binop, dunder, Out.toPy] at h
+      | expr a =>
+        cases o <;> first | exact h | (simp [binop, dunder, Out.toPy] at h)
+    | int n => simp [binop] at h
+    | bool c => simp [binop] at h
+    | other => simp [binop] at h
+  · intro h
+    cases x with
+    | dim dx =>
+      cases dx with
+      | unknown => cases o <;> first | exact h | (simp [binop, rdunder, dunder, Out.toPy] at h)
+      | bad => cases o <;> simp [binop, rdunder, dunder, Out.toPy] at h
+      | expr a => cases o <;> simp [binop, rdunder, dunder, Out.toPy] at h
+    | int n => simp [binop] at h
+    | bool c => simp [binop] at h
+    | other => simp [binop] at h
+
+/-- `a / True` evaluates like `a`; `a / False` has no value -/
+theorem eval_truediv_bool (env : Env) (a : Expr) :
+    eval env (fwdTreeInt .truediv a (boolInt true)) = eval env a ∧
+    eval env (fwdTreeInt .truediv a (boolInt false)) = none := by
+  constructor
+  · simp only [fwdTreeInt, boolInt, if_true, eval]
+    cases eval env a <;> simp [evalBin]
+  · simp only [fwdTreeInt, boolInt, eval]
+    cases eval env a <;> simp [evalBin]
 
 /-! ## evaluate -/
 
